@@ -112,6 +112,16 @@ impl<T: Pooled> Stack<T> {
     }
 }
 
+/// Forget every pooled entry (harnesses that build many independent messages in a loop call this
+/// between iterations; containers created before the call must not be used afterwards).
+pub fn reset_pools() {
+    unsafe {
+        (*core::ptr::addr_of_mut!(ATTR_POOL)).used = 0;
+        (*core::ptr::addr_of_mut!(VALUE_POOL)).used = 0;
+        (*core::ptr::addr_of_mut!(LIST_POOL)).used = 0;
+    }
+}
+
 static mut ORDER: usize = 0;
 
 /// Select the iteration order of every `HashMap` created by the model: `k` is the index of a
